@@ -157,7 +157,30 @@ pub fn run_generic(id: &str, tier: Tier) -> i32 {
             return 2;
         }
     };
-    let out = run_spec(&spec, seed);
+    let mut out = run_spec(&spec, seed);
+    if id == "C15" && out.violations.is_empty() {
+        use crate::props::stage::{check_star, Star};
+        use proptest::prelude::*;
+        let plan = Plan::<Star> {
+            name: "event-stars",
+            cases: tier.pick(20_000, 1_000_000),
+            strategy: Box::new(|| ((-50i32..50, -50i32..50), proptest::collection::vec((-4i32..=4, -4i32..=4, any::<bool>()), 2..12)).prop_map(|(centre, spokes)| Star { centre, spokes }).boxed()),
+            eval: Box::new(|st: &Star, want: bool| {
+                use std::hash::{Hash, Hasher};
+                let mut obs = Obs::default();
+                let r = crate::exec::guarded(u64::MAX, || check_star(st, &mut obs));
+                let result = match r {
+                    Ok(r) => r,
+                    Err(p) => Err(Failure::new("panic", format!("ordering panicked at {}:{}: {}", p.file, p.line, p.message))),
+                };
+                let mut h = std::collections::hash_map::DefaultHasher::new();
+                format!("{:?}", st).hash(&mut h);
+                Eval { obs, result, digest: h.finish(), family: "event-stars", sample: if want { Some(json!({"star": format!("{:?}", st)})) } else { None }, skip: None }
+            }),
+            replay: Box::new(|st: &Star, _f: &Failure| json!({"kind": "event-star", "centre": [st.centre.0, st.centre.1], "spokes": st.spokes.iter().map(|s| json!([s.0, s.1, s.2])).collect::<Vec<_>>()})),
+        };
+        run_plans("C15", seed, &[plan], &mut out.stats, &mut out.violations);
+    }
     write_evidence(id, tier, seed, spec.rule, &spec.assumptions, &out, t0.elapsed().as_secs_f64(), false);
     finish(id, &out)
 }
@@ -215,6 +238,22 @@ pub fn replay(path: &str) -> i32 {
                 }
                 Err(f) => {
                     println!("VIOLATION property=C16 replay={}", path);
+                    println!("  clause: {}\n  detail: {}", f.clause, f.detail);
+                    1
+                }
+            };
+        }
+        Some("event-star") => {
+            let centre = v.get("centre").and_then(|c| c.as_array()).map(|c| (c[0].as_i64().unwrap_or(0) as i32, c[1].as_i64().unwrap_or(0) as i32)).unwrap_or((0, 0));
+            let spokes: Vec<(i32, i32, bool)> = v.get("spokes").and_then(|s| s.as_array()).map(|a| a.iter().filter_map(|s| { let s = s.as_array()?; Some((s[0].as_i64()? as i32, s[1].as_i64()? as i32, s[2].as_bool()?)) }).collect()).unwrap_or_default();
+            let mut obs = Obs::default();
+            return match crate::props::stage::check_star(&crate::props::stage::Star { centre, spokes }, &mut obs) {
+                Ok(()) => {
+                    println!("replay {}: property C15 holds on this star", path);
+                    0
+                }
+                Err(f) => {
+                    println!("VIOLATION property=C15 replay={}", path);
                     println!("  clause: {}\n  detail: {}", f.clause, f.detail);
                     1
                 }
